@@ -1,6 +1,7 @@
 (* C29 — Rewriting Markdown link destinations changes only link destinations.
    Only statements, `exact`, and Print Assumptions live here. *)
 From Verif Require Import Bytes IndexM Facts_linkdest LinkDestM LinkDestSpec LinkDestSpec_proofs LinkDest_proofs.
+From Verif Require Import Facts_linkscan LinkScanM LinkScan_base LinkScan_parse LinkScan_inline LinkScan_loops LinkScan_lines LinkScan_proofs LinkScan_idem LinkScan_indep LinkScan_facts.
 Open Scope N_scope.
 
 (* Full statement.  It speaks about CommonMark (which spans of a document are
@@ -127,3 +128,190 @@ Proof.
   exists (fun _ => Some [104]), (fun _ => [104]), (fun u => u), (fun _ => [104]).
   repeat split; try discriminate. intros u _. exists [104]. split; reflexivity.
 Qed.
+
+(* ====================================================================== *)
+(* The scanner (collectReplacements, scanInlineLinks, the block state      *)
+(* machine) and the whole pipeline replace = applyReplacements after       *)
+(* collectReplacements, model coq/model/LinkScanM.v.  `decide` is the      *)
+(* rewriting of one destination (markdownUnescape, net/url, the base,      *)
+(* markdownURLEscape): every theorem holds for every such function, every  *)
+(* document, without bound.                                                *)
+
+(* (a) scan_ranges_valid: the scanner never faults (every index and slice is
+   in range), terminates within its fuel, and the ranges it collects are non
+   empty, inside the document, increasing and pairwise disjoint; an overlap
+   is not possible, so the guard `r.start < prev` of applyReplacements never
+   fires on a collected list (kept = everything, the sort is the identity) *)
+Definition C29_scan_ranges_statement : Prop :=
+  forall decide src,
+    exists rs, collectReplacements decide src = LOk rs /\ chain_in 0 rs (zlen src)
+      /\ Forall (valid src) rs /\ chain 0 rs /\ sorted_from 0 rs
+      /\ Forall (fun r => (r_start r < r_stop r)%Z) rs.
+
+Theorem C29_scan_ranges_valid : C29_scan_ranges_statement.
+Proof. exact scan_ranges_valid. Qed.
+Print Assumptions C29_scan_ranges_valid.
+
+(* (b) pipeline_outside_unchanged: the output of the whole rewriting is the
+   source with exactly the scanned ranges replaced by their texts; every other
+   byte is unchanged and in order; replace never faults *)
+Definition C29_pipeline_statement : Prop :=
+  forall decide src,
+    exists rs out first rest_out rest_src,
+      collectReplacements decide src = LOk rs /\ replace decide src = LOk out
+      /\ out = weave first rest_out /\ src = weave first rest_src
+      /\ map snd rest_out = map snd rest_src
+      /\ map fst rest_out = map r_text rs
+      /\ map fst rest_src = map (range src) rs.
+
+Theorem C29_pipeline_outside_unchanged : C29_pipeline_statement.
+Proof. exact pipeline_outside_unchanged. Qed.
+Print Assumptions C29_pipeline_outside_unchanged.
+
+(* (c) ranges_are_destinations_by_syntax: every collected range lies on one line
+   of the document and is, by the scanner's own grammar, either the destination
+   of a reference definition (refdef_origin: an opening bracket, a closing
+   bracket followed by a colon, blanks, then the destination) or of an inline
+   link (inline_origin: a closing bracket followed by an opening parenthesis,
+   blanks, then the destination); dest_shape says what delimits it: a
+   destination without blanks that ends at the end of the line, before a blank
+   or before a closing parenthesis, or one between angle brackets; its text is
+   what the decision returned on exactly these bytes.  That these ARE CommonMark
+   destinations is not proved (sweep against goldmark). *)
+Definition C29_origin_statement : Prop :=
+  forall decide src,
+    exists rs, collectReplacements decide src = LOk rs
+      /\ Forall (fun r => exists ls le, is_line src ls le /\ (ls <= r_start r)%Z /\ (r_stop r <= le)%Z
+                   /\ (refdef_origin decide (sub src ls le) src ls r
+                       \/ exists i, inline_origin decide (sub src ls le) src ls i r)) rs.
+
+Theorem C29_ranges_are_destinations_by_syntax : C29_origin_statement.
+Proof. exact ranges_are_destinations_by_syntax. Qed.
+Print Assumptions C29_ranges_are_destinations_by_syntax.
+
+(* (d) no_range_in_fence: the run of the model's block state machine is a list of
+   consecutive lines covering the document, each with the state before it and
+   its class.  The line that contains the start of a range is a reference
+   definition or an inline line, outside fenced code (and with an empty HTML
+   state for a definition); the range ends on that line; on an inline line the
+   iteration of the inline loop whose segment contains the start of the range
+   is of class ILink in the plain state: not inside a code span, not after an
+   unclosed comment / CDATA / processing instruction / declaration, not inside a
+   raw text element (script, style, textarea), tag stack empty.  Hence no range
+   starts on a line of class fence body / fence close / fence open / indented
+   code, nor on any line scanned while inFence holds. *)
+Definition C29_fence_statement : Prop :=
+  forall decide src,
+    exists st' tr, collectReplacements decide src = LOk (l_acc st') /\ lruns decide src 0 l_init tr st'
+      /\ Forall (fun en => let '(a, b, _, _) := en in is_line src a b) tr
+      /\ (forall k, (0 <= k <= zlen src)%Z -> exists en, In en tr /\ (let '(a, b, _, _) := en in (a <= k <= b)%Z))
+      /\ (forall r, In r (l_acc st') -> forall en, In en tr -> (let '(a, b, _, _) := en in (a <= r_start r <= b)%Z) ->
+            good_entry decide src en r)
+      /\ (forall r, In r (l_acc st') -> forall a b stk cls, In (a, b, stk, cls) tr ->
+            l_inFence stk = true \/ cls = CFenceBody \/ cls = CFenceClose \/ cls = CFenceOpen \/ cls = CIndented ->
+            ~ (a <= r_start r <= b)%Z).
+
+Theorem C29_no_range_in_fence : C29_fence_statement.
+Proof. exact no_range_in_fence. Qed.
+Print Assumptions C29_no_range_in_fence.
+
+(* the state of the inline loop decides the class of an iteration, and only an
+   iteration of class ILink appends: inside a code span, after an unclosed
+   comment-like construct, inside a raw text element nothing is appended *)
+Theorem C29_inline_step : forall decide line src lineStart st,
+  (0 <= i_pos st < zlen line)%Z -> (0 <= lineStart)%Z -> (0 <= i_code st)%Z ->
+  exists r cls, inline_step decide line src lineStart st = LOk (r, cls) /\ step_post decide line src lineStart st r cls.
+Proof. exact inline_step_ok. Qed.
+Print Assumptions C29_inline_step.
+
+(* (e) idempotence of the whole pipeline.  FULL statement: for a decision that
+   leaves alone every text it wrote, a second application changes nothing.
+   It is FALSE of the model (and of the code: both witnesses replayed on the
+   implementation): the rewritten text can change how the text around it
+   scans, by adding a delimiter (NBSP becomes a space, the inner link of
+   [[t](x?q=aNBSPb) ](rel) is lost and the outer one appears) or by removing one
+   (a double quote inside a destination becomes %22, the title of an otherwise
+   invalid reference definition now closes and its destination is rewritten). *)
+Theorem C29_pipeline_idempotent_refuted :
+  exists decide, leaves_own_texts decide
+    /\ (exists src out out2, replace decide src = LOk out /\ replace decide out = LOk out2 /\ out2 <> out)
+    /\ (exists src out out2, src = idem_witness_2 /\ replace decide src = LOk out /\ replace decide out = LOk out2 /\ out2 <> out).
+Proof. exact pipeline_idempotent_refuted. Qed.
+Print Assumptions C29_pipeline_idempotent_refuted.
+
+Theorem C29_pipeline_idempotent_statement_false : ~ pipeline_idempotent_statement.
+Proof. exact pipeline_idempotent_statement_false. Qed.
+
+(* proved part: a pass only rewrites destinations (by the scanner's grammar)
+   whose bytes are not a text written by the decision, so it never touches a
+   destination that is byte for byte a rewritten one; and a document in which
+   the scanner finds nothing to rewrite is a fixed point of the pipeline *)
+Definition C29_second_pass_statement : Prop :=
+  forall decide, leaves_own_texts decide ->
+    (forall out, collectReplacements decide out = LOk [] -> replace decide out = LOk out)
+    /\ forall out,
+        exists rs, collectReplacements decide out = LOk rs
+          /\ Forall (fun r => exists ls le, is_line out ls le /\ (ls <= r_start r)%Z /\ (r_stop r <= le)%Z
+                       /\ (refdef_origin decide (sub out ls le) out ls r
+                           \/ exists i, inline_origin decide (sub out ls le) out ls i r)
+                       /\ decide (sub out (r_start r) (r_stop r)) = Some (r_text r)
+                       /\ forall raw, decide raw <> Some (sub out (r_start r) (r_stop r))) rs.
+
+Theorem C29_pipeline_second_pass_partial : C29_second_pass_statement.
+Proof. exact (fun decide H => conj (pipeline_fixpoint decide) (second_pass_spares_rewritten_texts decide H)). Qed.
+Print Assumptions C29_pipeline_second_pass_partial.
+
+(* the control flow of the scanner does not depend on the decision: the ranges
+   passed to it (the candidates, computed with the logging decision, each with
+   its raw bytes as text) are the same for every decision, and the collected
+   list is exactly the candidates on which the decision says Some, with its
+   text.  Hence a document is a fixed point of the pipeline as soon as the
+   decision leaves alone every candidate found in it. *)
+Definition C29_independence_statement : Prop :=
+  forall d src,
+    exists cs, collectReplacements log_decide src = LOk cs
+      /\ Forall (fun c => r_text c = sub src (r_start c) (r_stop c)) cs
+      /\ collectReplacements d src = LOk (decs d cs)
+      /\ ((forall c, In c cs -> d (sub src (r_start c) (r_stop c)) = None) -> replace d src = LOk src).
+
+Theorem C29_scan_independent_of_decision : C29_independence_statement.
+Proof. exact scan_independence_full. Qed.
+Print Assumptions C29_scan_independent_of_decision.
+
+(* the decision of appendReplacement is an instance: with the three properties
+   of net/url of C29_idempotent_model it leaves its own texts alone *)
+Section IdempotentInstance.
+  Variable url : Type.
+  Variable parse : bytes -> option url.
+  Variable scheme host path : url -> bytes.
+  Variable rewrite : url -> url.
+  Variable to_string : url -> bytes.
+  Hypothesis rewrite_has_scheme : forall u, scheme (rewrite u) <> [].
+  Hypothesis parse_string_scheme : forall u, scheme u <> [] ->
+    exists u', parse (to_string u) = Some u' /\ scheme u' = scheme u.
+  Hypothesis string_no_nbsp : forall u, no_nbsp (to_string u) = true.
+
+  Theorem C29_decision_leaves_own_texts :
+    leaves_own_texts (appendReplacement_repl url parse scheme host path rewrite to_string).
+  Proof.
+    exact (C29_idempotent_model url parse scheme host path rewrite to_string
+             rewrite_has_scheme parse_string_scheme string_no_nbsp).
+  Qed.
+End IdempotentInstance.
+Print Assumptions C29_decision_leaves_own_texts.
+
+(* the obligations on the facts regenerated from linkdestination.go and goldmark/util *)
+Theorem C29_generated_scanner_facts : fact_linkscan = true.
+Proof. exact fact_linkscan_ok. Qed.
+
+(* non-vacuity: a document with a fence, a code span, a raw text element, a
+   reference definition and two links; the decision rewrites every destination
+   that does not start with h: *)
+Example C29_example_scan :
+  (* "```\n[a](b)\n```\n`[c](d)` [e](f)\n[r]: g\n<script>[h](i)</script>[j](k)" *)
+  collectReplacements toy_decide
+    [96; 96; 96; 10; 91; 97; 93; 40; 98; 41; 10; 96; 96; 96; 10; 96; 91; 99; 93; 40; 100; 41; 96; 32; 91; 101; 93; 40; 102; 41; 10;
+     91; 114; 93; 58; 32; 103; 10; 60; 115; 99; 114; 105; 112; 116; 62; 91; 104; 93; 40; 105; 41; 60; 47; 115; 99; 114; 105; 112; 116; 62;
+     91; 106; 93; 40; 107; 41]%N
+  = LOk [mkRepl 28 29 [104; 58; 102]%N; mkRepl 36 37 [104; 58; 103]%N; mkRepl 65 66 [104; 58; 107]%N].
+Proof. vm_compute. reflexivity. Qed.
